@@ -41,6 +41,8 @@ EXC = {
     'TypeError': lambda: TypeError('vf-type'), 'AttributeError': lambda: AttributeError('vf-attr'),
     'RuntimeError': lambda: RuntimeError('vf-runtime'), 'AssertionError': lambda: AssertionError('vf-assert'),
     'LookupError': lambda: LookupError('vf-lookup'), 'Custom': lambda: Custom('vf-custom'),
+    # exception types that Python's own protocols give a meaning to (iteration, generators used as context managers)
+    'StopIteration': lambda: StopIteration('vf-stop'), 'StopAsyncIteration': lambda: StopAsyncIteration('vf-astop'),
     # TatSu's own exception family, other than parse failures: "any other exception reaches the caller unchanged"
     'tatsu.ParseError': lambda: _tx('ParseError')('vf-parse-error'), 'tatsu.GrammarError': lambda: _tx('GrammarError')('vf-grammar-error'),
     'ParseException-subclass': lambda: _tx_sub()('vf-sub'),
